@@ -170,6 +170,36 @@ def gen(tier, rnd):
     return cases
 
 
+def tlc_behaviours(tier, out):
+    """Direction A: behaviours generated by TLC from spec/Gen_Sessions.tla (simulation mode), turned into cases of the driver.  Every command is
+    followed by `Z <peers>`: the peers that have a live session then, according to the specification."""
+    import json, re
+    cases, nbeh, seen = [], 0, set()
+    for cfg, maxidle in (('Gen_Sessions.cfg', 2), ('Gen_Sessions_noidle.cfg', 0)):
+        num = 150 if tier == 'quick' else 6000
+        st = V.tlc('Gen_Sessions', cfg, workers=4, extra=['-simulate', 'num=%d' % num, '-depth', '16', '-seed', str(V.seed() * 31 + maxidle)],
+                   timeout=900, xmx='4g', deque=False)
+        if 'is violated' in st['out'] or 'Error:' in st['out']:
+            raise V.Infra('Gen_Sessions: the behaviour generator violates what Sessions promises (specification error):\n' + st['out'][-2500:])
+        for m in re.finditer(r'^<<"BEH", "(.*)">>$', st['out'], re.M):
+            beh = json.loads(m.group(1).replace('\\"', '"'))
+            key = (maxidle, json.dumps(beh))
+            if key in seen:
+                continue
+            seen.add(key)
+            nbeh += 1
+            ops = []
+            for a in beh:
+                c, p = a['c'], a['p']
+                ops.append({'R': 'R %d' % p, 'Rh': 'R %d hold' % p, 'U': 'U %d' % p, 'O': 'O %d' % p, 'o': 'o %d' % p, 'T': 'T 0', 't': 't 0 r',
+                            'th': 't 0 r hold', 'D': 'D 0', 'I': 'I 1000'}[c])
+                ops.append('Z ' + ' '.join(str(x) for x in sorted(a['live'])))
+            cases.append((100000 + nbeh, ['X id=%d timeout=2 maxidle=%d tcp=1' % (100000 + nbeh, maxidle)] + ops + ['E']))
+    if nbeh < 50:
+        raise V.Infra('Gen_Sessions produced %d behaviours only' % nbeh)
+    return cases
+
+
 def run(pid, tier):
     t0 = time.time()
     rnd = random.Random(V.seed() * 7919 + 12)
@@ -182,13 +212,16 @@ def run(pid, tier):
     if lv['violated']:
         raise V.Infra('MC_Sessions liveness violated (specification error):\n' + lv['out'][-2500:])
     cases = gen(tier, rnd)
+    gcases = tlc_behaviours(tier, out)
+    cases += gcases
     vio_out, nexec, known, results = V.drive_and_validate(pid, drv, cases, out, 'Trace_Sessions', xmx='4g')
     V.write_evidence(pid, tier, 'model_checking', dict(
         states=mcst['distinct'], transitions=mcst['generated'], model_action_coverage=mcst['action_cov'], traces_validated_against_impl=nexec,
-        session_deletions_judged=sum(r.get('deletions', 0) for r in results), samples=[cases[0][1], cases[-1][1]], exhaustive=False,
+        session_deletions_judged=sum(r.get('deletions', 0) for r in results), behaviours_generated_by_tlc_and_replayed=len(gcases), samples=[cases[0][1], cases[-1][1]], exhaustive=False,
         rule='1-50 fabricated peers, session timeouts 1 s / 5 s / default, idle limits 0-5, application references, observers, async entries, '
              'Confirmable messages to silent peers, RSTs, time jumps just before / at / after every timeout, coap_free_context at every prefix of a '
-             'history that uses every kind of holder, random histories; allocator balance after every teardown'),
+             'history that uses every kind of holder, random histories; allocator balance after every teardown; behaviours generated by TLC from Gen_Sessions '
+             '(the driver\'s commands as actions over Sessions) replayed into the real server, the predicted set of live sessions compared after every command'),
         time.time() - t0, violations=len(vio_out),
         assumptions=['the application releases the references it took before it frees the context (the driver does)',
                      'only the dedicated driver is validated; the traces of C06-C11 are not re-validated against Sessions'])
